@@ -478,7 +478,7 @@ fn gen_inputs(rng: &mut Rng, quick: bool, cands: &[(String, LenExpr)]) -> Vec<In
                 }
             }
         }
-        let budget = if quick { 110 } else { usize::MAX };
+        let budget = if quick { 80 } else { 1200 };
         if combos.len() > budget {
             rng.shuffle(&mut combos);
             combos.truncate(budget);
@@ -503,7 +503,7 @@ fn gen_inputs(rng: &mut Rng, quick: bool, cands: &[(String, LenExpr)]) -> Vec<In
             cut += step;
         }
         // 3. seeded byte flips
-        let nflip = if quick { 30 } else { 1500 };
+        let nflip = if quick { 20 } else { 300 };
         for _ in 0..nflip {
             let mut b = plain.clone();
             for _ in 0..1 + rng.below(3) {
@@ -519,7 +519,7 @@ fn gen_inputs(rng: &mut Rng, quick: bool, cands: &[(String, LenExpr)]) -> Vec<In
         }
     }
     // 4. seeded random byte strings, biased towards protobuf-looking bytes
-    let nrand = if quick { 100 } else { 6000 };
+    let nrand = if quick { 60 } else { 1500 };
     for _ in 0..nrand {
         let n = rng.below(48);
         let b: Vec<u8> = (0..n)
@@ -661,6 +661,7 @@ fn parse_cands(path: &str) -> Vec<(String, LenExpr)> {
 
 /// `vh-load proto --out trace.ndjson [--cands file] [--only-case json]`
 pub fn main_proto() {
+    let _scratch = crate::child::scratch_tmpdir();
     let out = arg_or("--out", "proto.ndjson");
     let quick = std::env::var("VERIF_TIER").map(|t| t != "thorough").unwrap_or(true);
     let threads = arg_usize("--threads", 8);
